@@ -563,6 +563,10 @@ Proof.
   replace (/ (2 - p) * (2 - p)) with 1 in T2 by (field; lra).
   replace (y * exp ((1 - p) * z) / (1 - p)) with (- (y / (p - 1) * exp ((1 - p) * z))) by (field; lra).
   replace (y * exp ((1 - p) * z') / (1 - p)) with (- (y / (p - 1) * exp ((1 - p) * z'))) by (field; lra).
-  unfold Rdiv at 2 4. rewrite (Rmult_comm (exp ((2 - p) * z)) (/ (2 - p))), (Rmult_comm (exp ((2 - p) * z')) (/ (2 - p))).
+  replace (exp ((2 - p) * z) / (2 - p)) with (/ (2 - p) * exp ((2 - p) * z)) by (unfold Rdiv; ring).
+  replace (exp ((2 - p) * z') / (2 - p)) with (/ (2 - p) * exp ((2 - p) * z')) by (unfold Rdiv; ring).
+  set (A1 := y / (p - 1) * exp ((1 - p) * z)) in *. set (A1' := y / (p - 1) * exp ((1 - p) * z')) in *.
+  set (A2 := / (2 - p) * exp ((2 - p) * z)) in *. set (A2' := / (2 - p) * exp ((2 - p) * z')) in *.
+  set (K := pow_nn y (2 - p) / ((1 - p) * (2 - p))).
   lra.
 Qed.
